@@ -37,3 +37,107 @@ def oracle(H):
 
 SWEEP = (6, 80)
 install(globals(), ID, 3500, 40000)
+_sim_run = run
+_sim_replay = replay
+
+
+# ----------------------------------------------------------------------------- REAL part (fault point resize.after_adjust)
+def real_oracle(prog, out):
+    m = [o for o in out if "returned" in o]
+    if not m:
+        return [("driver_incomplete", f"{out[-2:]}")]
+    m = m[0]
+    v = []
+    if not m["returned"]:
+        v.append(("resize_never_returns", f"get_reusable_executor(max_workers={prog['new']}) did not return within 45 s (old {prog['old']}, "
+                  f"timeout {prog['timeout']}, plan {prog['plan']}, new worker dies: {prog['new_worker_dies']})"))
+        return v
+    if m["vals"] != list(range(prog["ntasks"])):
+        v.append(("work_before_resize_lost", f"{m['vals']}"))
+    if "exc" in m["res"]:
+        v.append(("resize_raised", m["res"]["exc"]))
+    elif not prog["new_worker_dies"] and m["after"] != [100, 101, 102]:
+        v.append(("executor_unusable_after_resize", f"{m['after']}"))
+    return v
+
+
+def real_shard(seed, n, tier="quick"):
+    import json
+    import hypothesis
+    from hypothesis import given, settings, HealthCheck, Phase, strategies as st
+    from real import runner
+    from vlib.common import Acc, HarnessError
+
+    acc = Acc()
+    fails = []
+    base = runner.workdir("c10real")
+    phases = [Phase.generate] if tier == "quick" else [Phase.generate, Phase.shrink]
+
+    @hypothesis.seed(seed)
+    @settings(max_examples=n, database=None, deadline=None, suppress_health_check=list(HealthCheck), report_multiple_bugs=False,
+              phases=phases)
+    @given(st.integers(1, 3), st.integers(1, 3), st.sampled_from([0.05, 0.2, 20, None]), st.integers(1, 4), st.booleans(), st.booleans(),
+           st.sampled_from(["resize.after_adjust", "resize.after_adjust", "resize.sentinels_posted", "resize.jobs_done"]),
+           st.sampled_from([300, 800, 1500]))
+    def t(old, new, timeout, ntasks, idle_first, dies, point, ms):
+        if old == new:
+            new = old % 3 + 1
+        prog = {"old": old, "new": new, "timeout": timeout, "ntasks": ntasks, "idle_first": idle_first and timeout is not None and timeout < 1,
+                "new_worker_dies": dies and (new > old or (idle_first and timeout is not None and timeout < 1)), "plan": [{"point": point, "role": "parent", "nth": 1, "action": f"sleep:{ms}"}]}
+        res, p = runner.run_driver("drv_c10.py", prog, base, timeout=200,
+                                   env_extra={"LOKY_VERIF_PLAN": json.dumps(prog["plan"]), "LOKY_VERIF_DIR": "."}, hooks=True)
+        res = runner.finish(res, p)
+        case = {"engine": "real", "prog": prog}
+        v = real_oracle(prog, res["out"])
+        if v and v[0][0] == "driver_incomplete":
+            raise HarnessError(f"C10 real driver incomplete rc={res['rc']}: {res['err'][-800:]} prog={prog}")
+        if not fails:
+            acc.case(case, True)
+            acc.count("real_resize_cases")
+            acc.count("real_point:" + point)
+            acc.count("real_new_worker_dies" if prog["new_worker_dies"] else "real_no_death")
+        if v:
+            fails.append({"kind": v[0][0], "detail": v[0][1], "case": case, "where": "real"})
+            raise AssertionError(v[0][0])
+
+    try:
+        t()
+    except BaseException:
+        if not fails:
+            raise
+    finally:
+        import shutil
+        shutil.rmtree(base, ignore_errors=True)
+    if fails:
+        acc.violations.append(fails[-1])
+    return acc
+
+
+def run(tier, seed):
+    from vlib import common
+    from vlib.shards import run_jobs
+    acc = _sim_run(tier, seed)
+    nr = 48 if tier == "quick" else 640
+    a2, _ = run_jobs([{"module": "props.c10", "func": "real_shard",
+                       "kwargs": {"seed": common.derive_seed(seed, ID, "real", i), "n": nr // 16, "tier": tier}} for i in range(16)],
+                     tag="c10real", timeout_s=1500 if tier == "quick" else 7200)
+    acc.merge(a2, sample_cap=10)
+    return acc
+
+
+def replay(case, verbose=False):
+    if case.get("engine") == "real":
+        import json
+        import shutil
+        from real import runner
+        base = runner.workdir("c10replay")
+        prog = case["prog"]
+        res, p = runner.run_driver("drv_c10.py", prog, base, timeout=200,
+                                   env_extra={"LOKY_VERIF_PLAN": json.dumps(prog["plan"]), "LOKY_VERIF_DIR": "."}, hooks=True)
+        res = runner.finish(res, p)
+        if verbose:
+            print(res["out"], res["err"][-400:])
+        v = real_oracle(prog, res["out"])
+        shutil.rmtree(base, ignore_errors=True)
+        return [{"kind": k, "detail": d, "case": case, "predicates": []} for k, d in v]
+    return _sim_replay(case, verbose)
